@@ -10,7 +10,7 @@
    The soundness of the other interval transfer functions is C21's subject and a hypothesis here. *)
 Require Import CV.Spec.BV CV.Model.PyPrelude CV.Model.Ast CV.Model.Build CV.Model.Rewrite CV.Model.AbsInt
                CV.Proofs.AstLemmas CV.Proofs.BuildSound CV.Proofs.SimpSound CV.Proofs.AbsIntSound CV.Proofs.AbsIntTable
-               CV.Model.SI CV.Proofs.SISound CV.Proofs.AbsIntSI.
+               CV.Model.SI CV.Model.SIUnion CV.Proofs.SISound CV.Proofs.AbsIntSI.
 From Coq Require Import ZArith List.
 Import ListNotations.
 Open Scope Z_scope.
@@ -57,3 +57,7 @@ Theorem C24_sub_entry : forall a b r, wf a -> wf b -> bits a = bits b -> aligned
   entry_ok (OSub, [], [asi a; asi b], asi r).
 Proof. exact sub_entry_ok. Qed.
 Print Assumptions C24_sub_entry.
+
+Theorem C24_union_join : forall a b r, wf a -> wf b -> bits a = bits b -> SIUnion.si_union a b = Ok r -> join_ok (asi a, asi b, asi r).
+Proof. exact union_join_ok. Qed.
+Print Assumptions C24_union_join.
